@@ -472,7 +472,7 @@ theorem clauseOwnerFired_sound {s : State} (inv : Inv s) (op : Op) :
       obtain ⟨g1, g2, _, _, g5⟩ := apMatch_fired s.heap (s.lists k) (s.lists j) (inv.names j) e
       obtain ⟨_, _, _, hv, hu⟩ := matchParametersValues_full (inv.names j) e
       simp only [g2, Out.isErr, State.withHeap, g1]
-      rw [Bool.or_eq_true, Bool.or_eq_true]
+      rw [Bool.or_eq_true]
       right
       rw [Bool.and_eq_true, List.all_eq_true, List.all_eq_true]
       constructor
